@@ -1,5 +1,5 @@
 //! C02 harness: soundness — proofs of invalid executions or for other public inputs are rejected.
-//!   c02 falsify <seed> <n>      SOUNDNESS FALSIFIER.  Oracle = airfam::is_valid (reference validity predicate, independent of
+//!   c02 falsify <seed> <n> [maxlog]   SOUNDNESS FALSIFIER (maxlog: largest log2 trace length, default 6).  Oracle = airfam::is_valid (reference validity predicate, independent of
 //!                               the library and of the Coq model; cross-checked with Trace::validate under catch_unwind).
 //!                               stream 1: corrupt ONE cell of a valid trace at every (column, step) class of the quantifier,
 //!                               prove with the honest prover code (release profile), verify:
@@ -11,7 +11,7 @@
 //!                               `evaluations=<n> failures=<k>`.
 //!   c02 corr <seed> <n>         lines "<case> => <verdict class> <deep evaluations>" for honest proofs with ONE component
 //!                               perturbed after proving; the case carries the parsed proof and the coin outputs.
-//!   c02 one <seed> <n> <idx>    re-run case <idx> of the falsify stream verbosely (replay).
+//!   c02 one <seed> <n> <idx> [maxlog]   re-run case <idx> of the falsify stream verbosely (replay).
 use std::cell::RefCell;
 use std::collections::BTreeMap;
 use std::marker::PhantomData;
@@ -254,6 +254,8 @@ fn pick_fri(r: &mut Rng, lde: usize, blowup: usize) -> (usize, usize) {
 }
 
 // ------------------------------------------------------------------------------------------------ case generation (stream 1)
+static MAX_LOG_N: std::sync::atomic::AtomicU32 = std::sync::atomic::AtomicU32::new(6);
+
 const CLASSES: [&str; 30] = [
     "main:first-step", "main:last-non-exempt(n-k-1)", "main:n-k", "main:n-k+1", "main:last-step", "main:interior", "main:exempt-only",
     "asserted:single:honest-avals", "asserted:single:corrupted-avals",
@@ -271,7 +273,8 @@ fn structured_spec(r: &mut Rng, blowup: usize, want_aux: bool, min_k: usize) -> 
 
 /// `grouped`: two more assertions that share the divisor (group) of the single and of the sequence assertion: columns 3 and 4
 fn structured_spec_g(r: &mut Rng, blowup: usize, want_aux: bool, min_k: usize, grouped: bool) -> Spec {
-    let log_n = 3 + r.below(4) as u32; // 8 .. 64
+    let max_log = MAX_LOG_N.load(std::sync::atomic::Ordering::Relaxed);
+    let log_n = if max_log > 6 && r.chance(1, 6) { 7 + r.below((max_log - 6) as u64) as u32 } else { 3 + r.below(4) as u32 }; // mostly 8 .. 64
     let n = 1usize << log_n;
     let width = if grouped { 5 + r.below(2) as usize } else { 3 + r.below(3) as usize };
     let nper = r.below(3) as usize;
@@ -898,6 +901,7 @@ fn cmd_run(args: &[String], cmd: String, seed: u64, n: usize) {
             for l in corr(&mut r, n) { println!("{}", l); }
         }
         "falsify" | "one" => {
+            if let Some(m) = args.get(if cmd == "one" { 5 } else { 4 }).and_then(|s| s.parse::<u32>().ok()) { MAX_LOG_N.store(m.clamp(6, 12), std::sync::atomic::Ordering::Relaxed); }
             // stream 1: n cases (the per-case generator is re-seeded from (seed, idx) so that `one` can replay a single case)
             let mut t = Tally::default();
             let only: Option<usize> = if cmd == "one" { args.get(4).and_then(|s| s.parse().ok()) } else { None };
